@@ -70,6 +70,8 @@ class Printer:
             if e.func.id == "inv" and len(e.args) == 1:
                 self.calls.add("inv")
                 return "(spake_inv %s)" % self.expr(e.args[0])
+            if e.func.id == "bool" and len(e.args) == 1 and not e.keywords:
+                return self.cond(e.args[0])        # bool(c) of a condition, in a function whose result is a proposition
             if e.func.id == "pow" and len(e.args) == 3:
                 return "((%s ^ (%s).toNat) %% %s)" % tuple(self.expr(a) for a in e.args)
         if isinstance(e, ast.Tuple):
